@@ -6,6 +6,7 @@ import random
 from typing import Any, Dict, List, Optional, Tuple
 
 from .model import common, unresolved_cycles
+from .sims import H
 
 PATHS_BY_DEPTH = {
     0: [()],
@@ -168,6 +169,9 @@ def gen_scenario(seed: int, profile: Optional[dict] = None) -> dict:
                 c["shift_int"] = True   # pass time_shifted=1 instead of True
         elif kind == "weak":
             c["weak"] = True
+            if rng.random() < prof.get("p_weak_shift", 0.15):
+                # both flags in one connect(): a later time step AND the next sub-step of the common group
+                c["shift"] = 1
         if kind in ("shift", "weak"):
             if not src_pers and not dst_trig:
                 if not prof.get("wild"):
@@ -248,6 +252,8 @@ def gen_scenario(seed: int, profile: Optional[dict] = None) -> dict:
         "debug": rng.random() < prof["debug"],
         "order_seed": rng.randrange(1 << 20) if rng.random() < 0.7 else None,
         "merge_connects": rng.random() < 0.4,
+        # every sixth scenario makes its single-pair connections through the public World.connect_one()
+        "connect_one": H(seed, "connect_one") % 6 == 0,
     }
     scn["config"] = cfg
     scn["gen"] = {"seed": seed}
